@@ -87,6 +87,92 @@ def device_range_obligations(prog, eng, b):
     return out
 
 
+# loops over device-derived positions: the loop variable must strictly advance on every way back to the loop head
+PROGRESS = [
+    # (function, how the loop variable is found, direction)
+    ("FeoxStore::scan_and_rebuild_indexes", ("arg_of", "RecoveryScanner::block", 1), +1),
+    ("persistence::file_is_all_zero", ("role", "remaining"), -1),
+    ("RecoveryScanner::visit_blocks", ("arg_of", "RecoveryScanner::fill_at", 1), +1),
+]
+
+
+def progress_obligations(prog, eng, b):
+    """termination of the position loops: on every back edge the new value of the loop variable is >= old + 1 (or <= old - 1)"""
+    from rules import roles
+    out = []
+    for (fn, how, direction) in PROGRESS:
+        if not path_matches(b.path, fn):
+            continue
+        c = eng.ctx(b)
+        f = c.f
+        local = None
+        if how[0] == "arg_of":
+            for n in b.calls():
+                if R.call_matches(n.ev, how[1]):
+                    local = roles.recv_local(b, n, how[2])
+        else:
+            ls = roles.locals_with_role(b, how[1])
+            local = ls[0] if ls else None
+        if local is None or local in f.mem:
+            ob = B.Ob(b.entry, "Progress", b.where(b.entry))
+            ob.desc = "loop variable not identified (%s)" % (how,)
+            out.append(ob)
+            continue
+        tin, tout = f.reaching(local)
+        heads = sorted({t[1] for t in tin.values() if t and t[0] == "phi"})
+        # loop heads: merge nodes that can reach themselves
+        found = 0
+        for m in heads:
+            seen, st = set(), [x for (x, _l) in b.nodes[m].succ]
+            while st:
+                x = st.pop()
+                if x in seen:
+                    continue
+                seen.add(x)
+                st += [y for (y, _l) in b.nodes[x].succ]
+            if m not in seen:
+                continue
+            if all(pp in seen for (pp, _l) in b.nodes[m].pred):
+                continue     # a merge inside the loop body, not the loop head (no edge from outside)
+            phi = f.tok_value(local, ("phi", m), m)
+            ent = f.phi(phi.key())
+            if not ent:
+                continue
+            _, ops, preds = ent
+            # flatten merges inside the loop body: the values that can flow back are the non-phi leaves
+            leaves = []
+            visited = set()
+
+            def expand(o, p, lab):
+                if o.k == "phi" and o.extra[0] == local and o.key() != phi.key():
+                    if o.key() in visited:
+                        return
+                    visited.add(o.key())
+                    e2 = f.phi(o.key())
+                    if e2:
+                        for o2, (p2, l2) in zip(e2[1], e2[2]):
+                            expand(o2, p2, l2)
+                        return
+                leaves.append((o, p, lab))
+            for o, (p, lab) in zip(ops, preds):
+                if p not in seen:
+                    continue     # entry edge of the loop
+                expand(o, p, lab)
+            for o, p, lab in leaves:
+                found += 1
+                ob = B.Ob(p, "Progress", b.where(p))
+                ob.desc = "`%s` strictly %s on the way back to the loop head: %s" % (b.local_name(local) or "_%d" % local, "advances" if direction > 0 else "decreases", o.show()[:70])
+                d = c.L(o) - c.L(phi)
+                ob.goals = [d - B.const(1)] if direction > 0 else [d.scale(-1) - B.const(1)]
+                ob_edge = (p, lab)
+                out.append((ob, ob_edge))
+        if not found:
+            ob = B.Ob(b.entry, "Progress", b.where(b.entry))
+            ob.desc = "no loop over `%s` found" % (b.local_name(local),)
+            out.append(ob)
+    return out
+
+
 def run(prog):
     eng = B.Engine(prog, contracts=CONTRACTS, inline=INLINE, ensures=ENSURES)
     out = []
@@ -99,6 +185,14 @@ def run(prog):
             ob = B.Ob(b.entry, "DeviceRange", b.where(b.entry))
             ob.desc = "retired_extents / total_sectors not identified"
             extra = [ob]
+        for item in progress_obligations(prog, eng, b):
+            if isinstance(item, tuple):
+                ob, (pp, lab) = item
+                facts = eng.facts_at_edge(c, pp, lab)
+                ok = all(eng.entails(c, facts, g, 0) for g in ob.goals)
+                out.append((b, ob, ok, "" if ok else "cannot show  %s >= 0" % ob.goals[0].show(c.names)))
+            else:
+                out.append((b, item, False, "loop not identified"))
         for ob in list(eng.obligations(c)) + extra:
             try:
                 ok, why = eng.prove(c, ob)
@@ -140,7 +234,7 @@ def check(ctx, inst="C17.bounds"):
         used[k] = used.get(k, 0) + 1
         if used[k] <= allowed.get(k, 0):
             continue
-        ctx.fail(inst, "BOUNDS", b.path, "panic site not discharged: %s: %s" % (ob.kind, ob.desc), ob.where,
+        ctx.fail(inst, "BOUNDS", b.path, "%s not discharged: %s: %s" % ("obligation" if ob.kind in ("Progress", "DeviceRange", "Contract", "AllocSize") else "panic site", ob.kind, ob.desc), ob.where,
                  {"reason": why, "rule": "every bounds / overflow / unwrap / length obligation in a device-bytes parser must follow from the checks that dominate it"})
     floor = residual.get("discharged_floor", 0)
     ctx.check(n_ok >= floor, inst, "anchor", "-", "discharged panic sites in the parser scope (>= %d, found %d)" % (floor, n_ok), None)
